@@ -51,8 +51,8 @@ def _rename_bigtries(res):
 def run(tier, seed, scale=1.0):
     t0 = time.time()
     quick = tier == "quick"
-    n_rob = int((30000 if quick else 1500000) * scale)
-    n_li = int((30000 if quick else 1200000) * scale)
+    n_rob = int((24000 if quick else 1200000) * scale)
+    n_li = int((22000 if quick else 900000) * scale)
     n_sub = max(64, int((600 if quick else 20000) * scale))
     res = vdriver.Result()
 
